@@ -28,6 +28,15 @@ META = {
 }
 
 
+def _stage(ctx, name, before):
+    """Book-keeping: which binding produced how many mismatches."""
+    n = len(ctx.mismatches) - before
+    ctx.extra.setdefault("mismatches_by_stage", {})[name] = n
+    if n:
+        print("C12 stage %s: %d mismatch(es)" % (name, n))
+    return len(ctx.mismatches)
+
+
 def run(ctx):
     q = ctx.tier == "quick"
     d = ctx.spec_copy("addrconv")
@@ -48,31 +57,34 @@ def run(ctx):
     ]
 
     # 1. design lemmas.
-    write_cfg(d / "AddrConvMC_run.cfg", "Spec", {"ToyNets": "{0, 85, 129, 170, 255}" if q else "0..255"},
+    write_cfg(d / "AddrConvMC_run.cfg", "Spec", {"ToyNets": "<- FewNets" if q else "<- AllNets"},
               invariants=["ContiguousMembership", "CanonicalIsCIDR", "NoPrefixForHoles", "AndOK"])
     ctx.tlc(d, "AddrConvMC", "AddrConvMC_run.cfg", label="toy-membership-mc", timeout=1200)
-    write_cfg(d / "PreferSortMC_run.cfg", "Spec", {"MaxLen": 4 if q else 5}, invariants=["SortedOK", "Unique"])
+    write_cfg(d / "PreferSortMC_run.cfg", "Spec", {"MaxLen": 5 if q else 6, "BruteLen": 4},
+              invariants=["SortedOK", "Unique", "SwapInvariant", "OrderedIsFixpoint"])
     ctx.tlc(d, "PreferSortMC", "PreferSortMC_run.cfg", label="sort-order-mc", timeout=1200)
 
     # 2. G: conversions.
-    k16 = ("{0, 1, 7, 8, 9, 16, 31, 32, 33, 63, 64, 65, 79, 80, 81, 88, 95, 96, 97, 100, 104, 112, 119, 120, 121, "
-           "127, 128}") if q else "0..128"
+    k16 = "<- QuickK16" if q else "<- AllK16"
     lemma_bits = "{0, 64, 96, 120, 128}" if q else "{0, 1, 7, 8, 31, 32, 64, 95, 96, 97, 104, 120, 127, 128}"
     write_cfg(d / "AddrConvGen_run.cfg", "Spec", {"K16": k16, "LemmaBits": lemma_bits},
               invariants=["Emit", "ConvLemma", "AddrPortLemma", "PrefixLemma", "MembershipLemma"])
     ctx.tlc(d, "AddrConvGen", "AddrConvGen_run.cfg", label="conv-gen", timeout=1200)
     nconv = count_lines(d / "conv_vectors.ndjson")
     ctx.vh(["c12", "replay-conv", d / "conv_vectors.ndjson", ctx.scratch / "conv.res"])
+    mark = len(ctx.mismatches)
     s1 = ctx.collect(ctx.scratch / "conv.res")
+    mark = _stage(ctx, "G:conversions", mark)
     if s1["replayed"] != nconv:
         raise CheckerError("replayed %d of %d conversion vectors" % (s1["replayed"], nconv))
 
     # 3. G: sorting.
-    write_cfg(d / "PreferSortGen_run.cfg", "Spec", {"MaxLen": 5 if q else 6}, invariants=["Emit"])
+    write_cfg(d / "PreferSortGen_run.cfg", "Spec", {"MaxLen": 5 if q else 6, "BruteLen": 0}, invariants=["Emit"])
     ctx.tlc(d, "PreferSortGen", "PreferSortGen_run.cfg", label="sort-gen", timeout=1200)
     nsort = count_lines(d / "sort_vectors.ndjson")
     ctx.vh(["c12", "replay-sort", d / "sort_universe.json", d / "sort_vectors.ndjson", ctx.scratch / "sort.res"])
     s2 = ctx.collect(ctx.scratch / "sort.res")
+    mark = _stage(ctx, "G:sort", mark)
     if s2["replayed"] != 2 * nsort:
         raise CheckerError("replayed %d of %d sort vectors" % (s2["replayed"], 2 * nsort))
     ctx.evaluations += s1["calls"] + s1["membership_probes"] * 2 + s2["replayed"] + s2["comparator_pairs"]
@@ -88,8 +100,10 @@ def run(ctx):
     n = 6000 if q else 40000
     ctx.vh(["c12", "record", d / "conv_trace.ndjson", ctx.scratch / "rec.res", n])
     s3 = ctx.collect(ctx.scratch / "rec.res")
+    mark = _stage(ctx, "T:record(panics)", mark)
     validate_trace(ctx, d, "AddrConvTrace", "AddrConvTrace.cfg", "conv_trace.ndjson",
                    "random conversions / sorts re-judged by TLC", timeout=1800)
+    mark = _stage(ctx, "T:trace-validated-by-TLC", mark)
     ctx.evaluations += s3["events"]
     ctx.distinct += s3["distinct_nontrivial"]
     ctx.traces += s3["events"] - 1
@@ -98,8 +112,23 @@ def run(ctx):
 
 
 def replay(ctx, path):
+    """Replay the recorded conversion vector (input + what the specification
+    requires) on the current tree."""
     r = json.load(open(path))
-    print(json.dumps(r, indent=1)[:4000])
-    print("re-run: bin/check C12 %s  (vectors and seeded random values are regenerated deterministically; "
-          "VERIF_SEED=%s)" % (r.get("tier", "quick"), r.get("seed", 1)))
-    return 0
+    print(json.dumps(r, indent=1)[:3000])
+    det = r.get("detail")
+    vec = det.get("vector", det) if isinstance(det, dict) else None
+    if not (isinstance(vec, dict) and vec.get("t") in ("ip", "net", "na")):
+        print("re-run: bin/check C12 %s  (sort vectors and seeded random values are regenerated "
+              "deterministically; VERIF_SEED=%s)" % (r.get("tier", "quick"), r.get("seed", 1)))
+        return 0
+    vf = ctx.scratch / "replay_vector.ndjson"
+    vf.write_text(json.dumps(vec) + "\n")
+    ctx.vh(["c12", "replay-conv", vf, ctx.scratch / "replay.res"])
+    ctx.collect(ctx.scratch / "replay.res")
+    if not ctx.mismatches:
+        print("current tree: the real functions return what the specification requires for this input")
+        return 0
+    for m in ctx.mismatches:
+        print("current tree: %s: %s" % (m["key"], m["what"]))
+    return 1
